@@ -512,7 +512,7 @@ CHECKS["C13"]["jobs"] += [FZ("fuzz-request", VSASL, "FuzzC13Request", "90s"), FZ
 CHECKS["C02"]["jobs"] += [FZ("fuzz-hashfile", VSTORE, "FuzzC02HashFile", "150s")]
 CHECKS["C07"]["jobs"] += [FZ("fuzz-check", AGENT, "FuzzC07Check", "120s", toolchain="go126")]
 
-CHECKS["C15"]["jobs"].append(J("frontends-trace", VTRACE, "TestC15FrontendsTrace", {"shards": 4, "checks": 3}, {"shards": 16, "checks": 60}))
+CHECKS["C15"]["jobs"].append(J("frontends-trace", VTRACE, "TestC15FrontendsTrace", {"shards": 8, "checks": 4}, {"shards": 16, "checks": 60}))
 CHECKS["C15"]["prebuild"] = DRV_PREBUILD + BIN_PREBUILD
 CHECKS["C15"]["required_classes"]["all"] += ["traced-frontend-request:sasl", "traced-frontend-request:ldap-bind"]
 
@@ -581,3 +581,10 @@ CHECKS["C08"]["jobs"].append(J("reader-interleaving", VTRACE, "TestC08ReaderInte
 CHECKS["C08"]["required_classes"]["all"] += ["reader:authenticate", "reader-stopped-at:openat"]
 CHECKS["C01"]["jobs"].append(J("overlapping-writes", VSTORE, "TestC01OverlappingWrites", {"shards": 2, "n": 40}, {"shards": 8, "n": 3000}, rapid=False))
 CHECKS["C01"]["required_classes"]["all"] = CHECKS["C01"].get("required_classes", {}).get("all", []) + ["overlapping-updates-of-one-user", "overlapping-adds-of-one-user"]
+CHECKS["C11"]["required_classes"]["all"] = CHECKS["C11"].get("required_classes", {}).get("all", []) + ["store:large(>64 entries)"]
+CHECKS["C12"]["required_classes"]["all"] = CHECKS["C12"].get("required_classes", {}).get("all", []) + ["upgrade-performed:master", "remote:outage-of->=10-calls-then-reachable=true"]
+CHECKS["C13"]["jobs"].append(J("encode-sequences", VSASL, "TestC13EncodeSequences", {"shards": 2, "n": 800}, {"shards": 8, "n": 40000}, rapid=False))
+CHECKS["C13"]["required_classes"]["all"] = CHECKS["C13"].get("required_classes", {}).get("all", []) + ["encode-after-failed-write"]
+CHECKS["C15"]["required_classes"]["all"] = CHECKS["C15"].get("required_classes", {}).get("all", []) + ["store-degraded-while-agent-runs", "traced-noop-request-with-admin-session"]
+CHECKS["C17"]["jobs"].append(J("running-agent", VBB, "TestC17RunningAgent", {"shards": 6, "checks": 6}, {"shards": 16, "checks": 200}))
+CHECKS["C17"]["required_classes"]["all"] = CHECKS["C17"].get("required_classes", {}).get("all", []) + ["c17-running:write-after-reload", "c17-running:refused", "c17-running:accepted"]
